@@ -1284,9 +1284,9 @@ def n17_map_collect(src, log):
         hit = None
         for c in find_closures(src, toks):
             b0, b1, st, en, blk = c
-            if not blk or b1 != b0 + 2 or toks[b0 + 1].kind != "ident":
+            if b1 != b0 + 2 or toks[b0 + 1].kind != "ident":
                 continue
-            # IDENT . into_iter ( ) . map ( |X| {..} ) . collect ( )
+            # IDENT . into_iter ( ) . map ( |X| {..} ) . collect ( )      (the closure body may also be a plain expression)
             if b0 >= 8 and toks[b0 - 1].text == "(" and toks[b0 - 2].text == "map" and toks[b0 - 3].text == "." \
                     and toks[b0 - 4].text == ")" and toks[b0 - 5].text == "(" and toks[b0 - 6].text == "into_iter" \
                     and toks[b0 - 7].text == "." and toks[b0 - 8].kind == "ident" and not (b0 >= 9 and toks[b0 - 9].text in (".", "::")):
